@@ -13,6 +13,7 @@ package main
 
 import (
 	"fmt"
+	"os"
 	"reflect"
 	"strings"
 	"time"
@@ -482,7 +483,7 @@ func (x *explorer) check(n *node) {
 
 // neutral contexts / neutral operands used to decide which side of a failing parent-child pair is at fault
 var neutralCtx = map[sort_][]string{
-	sE: {"loop\n  «S»\nend", "foo(«E»)", "[«E», 0]", "x = «E»", "z + «E»", "«E» + z", "«E».foo", "«E»[0]", "z.foo(«E»)"},
+	sE: {"loop\n  «S»\nend", "foo(«E»)", "[«E», 0]", "z + «E»", "«E» + z", "«E».foo", "«E»[0]", "z.foo(«E»)"},
 	sS: {"loop\n  «S»\nend", "while x\n  «S»\n  y\nend", "class X\n  «S»\nend"},
 	sP: {"[«P»]", "«P» as x", "X(a: «P»)", "«P» || 9", "«P»?"},
 	sT: {"X[«T»]", "|a: «T»|: Int", "«T» | Nil", "«T»?", "~«T»"},
@@ -533,6 +534,40 @@ func (x *explorer) nesting(kid *node, hs sort_) string {
 		return "print/reparse: node=" + classLabel(kid.t.class) + " is not parenthesised when nested"
 	}
 	return ""
+}
+
+// parentGeneral: the node breaks with at least two of the ordinary operands of hole i.
+func (x *explorer) parentGeneral(n *node, i int) bool {
+	var texts []string
+	for _, nk := range neutralKids[n.t.holes[i]] {
+		ch := make([]string, len(n.t.holes))
+		ch[i] = nk
+		if n.t.holes[i] != sS {
+			ch[i] = "(" + nk + ")"
+		}
+		texts = append(texts, n.t.fill(ch))
+	}
+	return x.failing(progSort(n.t), texts) >= 2
+}
+
+// anyContext: the tree breaks in at least one ordinary context of a hole of sort hs.
+func (x *explorer) anyContext(kid *node, hs sort_) bool {
+	ktext := kid.text()
+	ctxSort := sE
+	if hs == sP || hs == sT {
+		ctxSort = hs
+	}
+	for _, c := range neutralCtx[hs] {
+		ct := compile(sE, c)
+		kt := ktext
+		if needsParens(kid.t, ct.holes[0]) {
+			kt = "(" + kt + ")"
+		}
+		if x.fails(ctxSort, ct.fill([]string{kt})) {
+			return true
+		}
+	}
+	return false
 }
 
 // localise names the construction at fault, so that one printer defect gets one signature:
@@ -595,11 +630,15 @@ func (x *explorer) localise(n *node) string {
 						return x.localise(direct)
 					}
 				}
-				// the middle node with the grandchild, nested anywhere
-				if x.nesting(k, n.t.holes[i]) != "" {
+				// the outer node with ordinary operands in this hole (e.g. it cannot print a multi-line operand at all)
+				if x.parentGeneral(n, i) {
+					return fmt.Sprintf("print/reparse: node=%s misprints its operands", classLabel(n.t.class))
+				}
+				// the middle node with the grandchild inside any ordinary context: the outer node is not needed
+				if x.anyContext(k, n.t.holes[i]) {
 					return fmt.Sprintf("print/reparse: parent=%s child=%s", classLabel(k.t.class), classLabel(g.t.class))
 				}
-				return fmt.Sprintf("print/reparse: parent=%s child=%s grandchild=%s", classLabel(n.t.class), classLabel(k.t.class), classLabel(g.t.class))
+				return fmt.Sprintf("print/reparse: parent=%s child=%s", classLabel(n.t.class), classLabel(k.t.class))
 			}
 		}
 		// (a) the child inside ordinary contexts
@@ -607,16 +646,7 @@ func (x *explorer) localise(n *node) string {
 			return sig
 		}
 		// (b) the parent with ordinary operands in this hole
-		var texts []string
-		for _, nk := range neutralKids[n.t.holes[i]] {
-			ch := make([]string, len(n.t.holes))
-			ch[i] = nk
-			if n.t.holes[i] != sS {
-				ch[i] = "(" + nk + ")"
-			}
-			texts = append(texts, n.t.fill(ch))
-		}
-		if x.failing(ps, texts) >= 2 {
+		if x.parentGeneral(n, i) {
 			return fmt.Sprintf("print/reparse: node=%s misprints its operands", classLabel(n.t.class))
 		}
 		return fmt.Sprintf("print/reparse: parent=%s child=%s", classLabel(n.t.class), classLabel(k.t.class))
@@ -712,9 +742,16 @@ func main() {
 }
 
 func run(c *engine.Ctx) {
+	only := os.Getenv("C05_ONLY") // development aid: enumerate only the cases whose id contains this text
+	caseFn := c.Case
+	kase := func(id string, f func(r *engine.R)) {
+		if only == "" || strings.Contains(id, only) {
+			caseFn(id, f)
+		}
+	}
 	g := build()
 	newX := func(r *engine.R) *explorer { return &explorer{g: g, r: r, memoFail: map[string]bool{}} }
-	c.Case("grammar", func(r *engine.R) {
+	kase("grammar", func(r *engine.R) {
 		for _, s := range []sort_{sE, sD, sP, sT} {
 			n, ok, reps := 0, 0, 0
 			for _, t := range g.byName[s] {
@@ -742,7 +779,7 @@ func run(c *engine.Ctx) {
 			if t.class == "" {
 				continue
 			}
-			c.Case(fmt.Sprintf("depth2/%c/%s", s, t.name()), func(r *engine.R) {
+			kase(fmt.Sprintf("depth2/%c/%s", s, t.name()), func(r *engine.R) {
 				x := newX(r)
 				x.depth2(t, repsOnly)
 				r.Sample(t.fill(nil))
@@ -763,7 +800,7 @@ func run(c *engine.Ctx) {
 						if len(ch.holes) == 0 {
 							continue
 						}
-						c.Case(fmt.Sprintf("spine3/%c/%s/%d/%s", s, t.name(), i, ch.name()), func(r *engine.R) {
+						kase(fmt.Sprintf("spine3/%c/%s/%d/%s", s, t.name(), i, ch.name()), func(r *engine.R) {
 							x := newX(r)
 							x.spine3(t, i, ch)
 						})
